@@ -11,26 +11,26 @@ sys.path.insert(0, HERE)
 
 PY = "/venv/bin/python"
 TECH = {
-    "C01": "handler-table resolution + path-sensitive abstract interpretation of the simplifier handlers (rewrite-rule extraction vs identity/fold tables), who-may-call",
-    "C02": "CFG must-pass-through with branch polarity on get_value; decision-table extraction; fold extraction shared with C01",
-    "C03": "who-may-call + CFG dominance on create_node; sort-kind abstract interpretation of the typing rules vs a signature table",
-    "C04": "who-may-write over the package, CFG pairing on create_node, constructor/accessor payload-layout agreement",
-    "C05": "set-relational normal form of the binder filter, key-provenance of the lookup order, exhaustive dispatch",
-    "C06": "dispatch-table extraction of infix methods; symbolic expansion of derived constructors with truth tables / order cases",
-    "C07": "output-template extraction from both printers vs SMT-LIB name table, sibling cross-check, taint to quote(), CFG ordering",
-    "C08": "token-table extraction vs reference, index-order dataflow, bind/unbind pairing, fallback (error-discipline) rule",
-    "C09": "composition of printer templates with parser token table and constructor summaries; lexer-rule simulation for the HR syntax",
-    "C10": "contradiction rule on polarity case sets; Boolean-leaf expansion of handlers decided by truth table",
-    "C11": "clause-set extraction decided by truth table; taint of raw arguments in Ackermannization",
-    "C12": "exhaustive dispatch; provenance-domain interpretation of transfer functions; payload-sort cross-check between sibling oracles",
-    "C13": "feature-coverage table rule over TheoryOracle handlers; exhaustive flag-group check of the theory order; relational normal form of selection comprehensions",
-    "C14": "memo-key completeness / one-shot construction sites; freshness dataflow on cached Theory objects; purity of singleton handlers",
-    "C15": "CFG with exceptional edges: scratch state restored on raise; register-after-check ordering in create_node",
-    "C16": "decorator discipline over all solver classes; push/pop/reset pairing by pattern + CFG dominance",
-    "C17": "level-mirroring and frame-read rules, send/read pairing on the CFG, verdict decision table",
-    "C18": "push/pop bracket: CFG must-pass-through per open call; comparator table vs reference",
-    "C19": "structural bounded-wait rule on the receive loop; single-message discipline of members",
-    "C20": "self-recursion / call-graph cycle detection over the formula core; compute-once guards in DagWalker",
+    "C01": "handler-table resolution + path-sensitive abstract interpretation of the simplifier handlers on operand classes with symbolic constants (rewrite-rule extraction decided against independent reference semantics over small domains), who-may-call",
+    "C02": "abstract interpretation of EagerModel / Model.satisfies with models of symbolic constants, decided against the reference semantics",
+    "C03": "who-may-call + CFG dominance on create_node; abstract interpretation of the typing rules per operator and operand-sort triple vs a reference signature function",
+    "C04": "who-may-write over the package, CFG pairing on create_node, constructor/accessor payload-layout agreement by interpretation, class-level container rule",
+    "C05": "abstract interpretation of both substituters on (skeleton, map) pairs vs an independent reference replacement and the substitution lemma; exhaustive dispatch; instance-reuse probe",
+    "C06": "abstract interpretation (symbolic expansion) of derived constructors / infix forms / named methods vs the function the name denotes",
+    "C07": "abstract interpretation of the whole export path on concrete skeletons; the written text is read by an independent SMT-LIB reader/evaluator (well-formedness + denotation); exhaustive dispatch",
+    "C08": "abstract interpretation of the parser (tokeniser to constructors, type check included) on a script corpus vs the independent reader; token-table rule; reset completeness",
+    "C09": "composition by interpretation: printer then parser (SMT-LIB tree / let-DAG, human-readable), script re-serialisation; command-table rule",
+    "C10": "abstract interpretation of each rewriter on operator skeletons; equivalence by complete truth table and shape predicate",
+    "C11": "abstract interpretation of CNF converters and Ackermannizer; model-by-model equisatisfiability by truth table / function tables; exhaustive dispatch",
+    "C12": "exhaustive dispatch; abstract interpretation of the five oracles per operator skeleton vs structural reference definitions; payload-sort cross-check",
+    "C13": "abstract interpretation of TheoryOracle on skeletons vs independently computed feature sets; relational normal form of the logic tables and selection comprehensions",
+    "C14": "memo-key completeness / one-shot construction sites; effectful-handler and accumulator-reset rules; interpretation of cached Theory freshness; value-keyed cache validation",
+    "C15": "abstract interpretation of the DagWalker protocol with a failure injected at every handler call (state equivalence with a fresh walker); register-after-check ordering on the CFG of create_node; parser reset-before-parse",
+    "C16": "abstract interpretation of script replay and of the incremental-solver base classes (with the real decorator) over all bounded API sequences vs a reference assertion-stack model; decorator discipline over all solver classes",
+    "C17": "abstract interpretation of the text-interface solver against an analysis-side reference solver process over all bounded API sequences; verdict table incl. end-of-file",
+    "C18": "push/pop bracket: CFG must-pass-through per open call incl. exceptional exits; comparator table vs reference; 'no solution' rule",
+    "C19": "abstract interpretation of Portfolio under an environment model in which the race is an enumerated schedule (arrival orders, time-outs, failing / dying members, repeated solves)",
+    "C20": "self-recursion detection over the formula core; abstract interpretation of the traversal on maximally shared DAGs (handler calls and traversal steps grow with nodes, not paths); re-entrancy rule",
 }
 
 NA = []   # every property has at least one clause decided statically (see DESIGN.md section 9)
@@ -51,14 +51,17 @@ def main():
             "technique": "static analysis: " + TECH[pid],
             "level_claimed": {
                 "category": "other",
-                "text": "Static analysis of /repo's current source (ast; nothing from pySMT is imported or run). "
-                        "Decides the structural clauses that are necessary conditions of the property, on every "
-                        "path / handler / table entry, not the behavioural statement as a whole. " + mod.EXPLANATION,
+                "text": "Static analysis of /repo's current source (ast; nothing from pySMT is imported or run; "
+                        "the source is interpreted by the analyser over abstract values). What is decided is "
+                        "stated clause by clause below, with its bounds; anything beyond those bounds is listed "
+                        "under level_note. " + mod.EXPLANATION,
                 "design_ref": "DESIGN.md section 4, %s" % pid,
             },
-            "level_note": "Not decided (needs evaluation, outside this technique family): " + "; ".join(mod.NOT_DECIDED) +
-                          ". Trusted base: Python semantics of the analysed subset, the reference tables in sa/tables, "
-                          "no run-time monkey-patching of walkers/managers.",
+            "level_note": "Not decided: " + "; ".join(mod.NOT_DECIDED) +
+                          ". Trusted base: the analyser's model of the Python subset pySMT uses, the reference "
+                          "semantics / reader / tables written from the SMT-LIB standard (sa/refsem.py, sa/refsmt.py, sa/tables), "
+                          "the analysis-side environment models (solver process, queues), no run-time monkey-patching "
+                          "of walkers / managers.",
         })
     man = {
         "version": 1,
@@ -75,8 +78,11 @@ def main():
             "path": "/verif/sa",
             "serves_properties": ["C%02d" % i for i in range(1, 21)],
             "kind_free_text": "repository-specific static analyser on Python's ast: import/class/MRO resolution, "
-                              "operator-set constant folding, Walker handler tables, statement CFG, path-sensitive "
-                              "abstract interpreter with finite domains, reference tables",
+                              "operator-set constant folding, Walker handler tables, statement CFG, and a path-sensitive "
+                              "abstract interpreter of the package's source (symbolic integers / bit strings, interned "
+                              "abstract formula nodes, lazily interpreted generators, models of the standard-library "
+                              "objects the code touches) with independent reference semantics and an independent "
+                              "SMT-LIB reader; nothing of pySMT is imported or executed",
         }],
         "checks": checks,
         "not_applicable": NA,
